@@ -6,6 +6,7 @@ import SlipVerif.Lemmas.JsonScan
 import SlipVerif.Lemmas.JsonConfig
 import SlipVerif.Lemmas.JsonSen
 import SlipVerif.Model.JsonWrite
+import SlipVerif.Lemmas.JsonAlias
 /-
   C18 — property theorems about the JSON model (Model/Json.lean, JsonText.lean, JsonLisp.lean),
   the model the correspondence harness (harness/cmd/vh/c18*.go) runs against the implementation.
@@ -500,5 +501,213 @@ theorem json_keyword_last_wins (kws : List (String × KwVal)) (v : KwVal) (w0 w 
 theorem pretty_writer_iff (w : WOpts) : writerOf w = .pretty ↔ (w.prty = true ∧ 1 < w.maxDepth) := by
   unfold writerOf
   by_cases h1 : w.prty = true <;> by_cases h2 : 1 < w.maxDepth <;> simp [h1, h2] <;> split <;> simp
+
+/-! ## several bags on one tree (Model/JsonAlias.lean): a write through any bag is seen by every bag -/
+
+/-- reads through a bag are reads of the root tree at the bag's place: `get-all` (and with it get,
+    has, walk, which are functions of it) through a view = the same selection from the root below
+    the view's path. -/
+theorem view_read_refines (h : Heap) (u : View) (p : Path) (t : J) (hd : definite u.path = true)
+    (ht : h.trees[u.root]? = some t) :
+    ((h.tree u).toList.flatMap (getAll p)) = getAll (u.path ++ p) t := by
+  simp only [Heap.tree, ht, Option.bind_some]
+  exact (getAll_append_definite u.path hd p t).symm
+
+/-- get along a definite prefix goes through the node the prefix locates -/
+theorem get_append_definite (pre q : Path) (j : J) (hd : definite pre = true) :
+    get (pre ++ q) j = (get pre j).bind (get q) := by
+  rw [get_eq_head_getAll, getAll_append_definite pre hd q j]
+  cases get pre j with
+  | none => simp
+  | some c => simp [get_eq_head_getAll]
+
+/-- A child bag (`(bag-get b p t)`, an element of `:get-all`, the argument of a `bag-walk` function)
+    shows the node the path selects in the parent — as a view of the parent's tree when the node is
+    a container, so that `alias_write_refines` applies to every later write through either bag. -/
+theorem child_shows_node (h h' : Heap) (b : Nat) (p : Path) (v : View) (t : J)
+    (hv : h.views[b]? = some v) (hd : definite v.path = true) (ht : h.tree v = some t)
+    (hs : h.child b p = .ok h') :
+    h'.bagTree h.views.length = get p t := by
+  unfold Heap.child at hs
+  simp only [hv, ht] at hs
+  split at hs
+  · cases hs
+  · split at hs
+    · cases hs
+    · cases hs
+    · rename_i c hc hget
+      split at hs
+      · cases hs
+        cases hr : h.trees[v.root]? with
+        | none => simp [Heap.tree, hr] at ht
+        | some r =>
+          have hg : get v.path r = some t := by simpa [Heap.tree, hr] using ht
+          simp [Heap.bagTree, Heap.tree, hr, get_append_definite v.path p r hd, hg, hget]
+      · cases hs
+        simp [Heap.bagTree, Heap.tree, Heap.newBag, hget, get]
+
+/-- A bag that is given a tree of its own (a parse / read / set without a path) shows that tree; the
+    bags that shared its old tree keep what they showed. -/
+theorem reset_detaches (h h' : Heap) (b : Nat) (j : J) (hs : h.resetBag b j = .ok h') :
+    h'.bagTree b = some j ∧
+    ∀ b' u, b' ≠ b → h.views[b']? = some u → u.root < h.trees.length → h'.bagTree b' = h.bagTree b' := by
+  unfold Heap.resetBag at hs
+  cases hv : h.views[b]? with
+  | none => simp [hv] at hs
+  | some v =>
+    simp only [hv] at hs
+    cases hs
+    have hlt : b < h.views.length := by
+      rcases List.getElem?_eq_some_iff.mp hv with ⟨hl, _⟩; exact hl
+    refine ⟨by simp [Heap.bagTree, Heap.tree, hlt, get], ?_⟩
+    intro b' u hne hu hroot
+    simp [Heap.bagTree, Heap.tree, List.getElem?_set_ne (Ne.symm hne), hu, List.getElem?_append_left hroot]
+
+/-- Refinement: a `bag-set` through bag `b` at `p` is, for EVERY bag `u` on the same tree whose
+    place encloses the written location (`u.path ++ q = v.path ++ p`: the writer itself, its
+    parents, a bag it was stored in), exactly the set of `q` in the tree that bag shows. -/
+theorem alias_write_refines (h h' : Heap) (b : Nat) (p q : Path) (x c : J) (v u : View)
+    (hv : h.views[b]? = some v) (hs : h.setVia b p x = .ok h')
+    (hr : u.root = v.root) (hq : q ≠ []) (hp : u.path ++ q = v.path ++ p)
+    (hdu : definite u.path = true) (hdq : definite q = true) (hc : h.tree u = some c) :
+    ∃ c', set x q c = .ok c' ∧ h'.tree u = some c' := by
+  unfold Heap.setVia at hs
+  simp only [hv] at hs
+  split at hs
+  · cases hs
+  · cases ht : h.trees[v.root]? with
+    | none => simp [ht] at hs
+    | some t =>
+      simp only [ht] at hs
+      cases hset : set x (v.path ++ p) t with
+      | error e => simp [hset] at hs
+      | ok t' =>
+        simp only [hset] at hs
+        cases hs
+        have hdd : definite (u.path ++ q) = true := by rw [definite_append, hdu, hdq]; rfl
+        rw [← hp, set_eq_setAt_of_definite x _ t hdd] at hset
+        have hg : get u.path t = some c := by
+          simpa [Heap.tree, hr, ht] using hc
+        obtain ⟨c', hc', hg'⟩ := setAt_through_prefix x u.path hdu q t t' c hq hg hset
+        refine ⟨c', by rw [set_eq_setAt_of_definite x q c hdq]; exact hc', ?_⟩
+        have hlt : v.root < h.trees.length := by
+          rcases List.getElem?_eq_some_iff.mp ht with ⟨hl, _⟩; exact hl
+        simp [Heap.tree, hr, hlt, hg']
+
+/-- Read after write through any alias: after a set through bag `b`, a get of the same location
+    through any enclosing bag returns the written value. -/
+theorem alias_read_after_write (h h' : Heap) (b : Nat) (p q : Path) (x c : J) (v u : View)
+    (hv : h.views[b]? = some v) (hs : h.setVia b p x = .ok h')
+    (hr : u.root = v.root) (hq : q ≠ []) (hp : u.path ++ q = v.path ++ p)
+    (hdu : definite u.path = true) (hdq : definite q = true) (hc : h.tree u = some c) :
+    (h'.tree u).bind (get q) = some x := by
+  obtain ⟨c', hset, ht⟩ := alias_write_refines h h' b p q x c v u hv hs hr hq hp hdu hdq hc
+  rw [ht]
+  exact get_set_same x q c c' hdq hset
+
+example : (({ trees := [obj [("a", obj [("k", .int 1)])]], views := [⟨0, []⟩, ⟨0, [.key "a"]⟩] } : Heap).setVia 1 [.key "k"] (.int 2)).toOption.bind
+    (fun h' => (h'.bagTree 0).bind (get [.key "a", .key "k"])) = some (.int 2) := by rfl
+
+/-- Frame: bags on other trees do not change. -/
+theorem alias_other_tree (h h' : Heap) (b : Nat) (p : Path) (x : J) (v u : View)
+    (hv : h.views[b]? = some v) (hs : h.setVia b p x = .ok h') (hr : u.root ≠ v.root) :
+    h'.tree u = h.tree u := by
+  unfold Heap.setVia at hs
+  simp only [hv] at hs
+  split at hs
+  · cases hs
+  · cases ht : h.trees[v.root]? with
+    | none => simp [ht] at hs
+    | some t =>
+      simp only [ht] at hs
+      cases hset : set x (v.path ++ p) t with
+      | error e => simp [hset] at hs
+      | ok t' =>
+        simp only [hset] at hs
+        cases hs
+        simp [Heap.tree, List.getElem?_set_ne (Ne.symm hr)]
+
+/-- Frame: a bag on the same tree whose place parts from the written location (`Apart`) shows the
+    tree it showed before. -/
+theorem alias_apart (h h' : Heap) (b : Nat) (p : Path) (x : J) (v u : View)
+    (hv : h.views[b]? = some v) (hs : h.setVia b p x = .ok h')
+    (hd : definite (v.path ++ p) = true) (ha : Apart (v.path ++ p) u.path) :
+    h'.tree u = h.tree u := by
+  unfold Heap.setVia at hs
+  simp only [hv] at hs
+  split at hs
+  · cases hs
+  · cases ht : h.trees[v.root]? with
+    | none => simp [ht] at hs
+    | some t =>
+      simp only [ht] at hs
+      cases hset : set x (v.path ++ p) t with
+      | error e => simp [hset] at hs
+      | ok t' =>
+        simp only [hset] at hs
+        cases hs
+        rcases List.getElem?_eq_some_iff.mp ht with ⟨hlt, heq⟩
+        by_cases hr : u.root = v.root
+        · simp [Heap.tree, hr, hlt, heq, get_set_disjoint x _ _ t t' hd ha hset]
+        · simp [Heap.tree, List.getElem?_set_ne (Ne.symm hr)]
+
+/-- The same refinement for `bag-remove` through a bag: every enclosing bag sees the remove of the
+    relative path in its own tree. -/
+theorem alias_remove_refines (h h' : Heap) (b : Nat) (p q' : Path) (s : Step) (c : J) (v u : View)
+    (hv : h.views[b]? = some v) (hs : h.removeVia b p = .ok h')
+    (hr : u.root = v.root) (hp : u.path ++ (q' ++ [s]) = v.path ++ p)
+    (hdu : definite u.path = true) (hdq : definite q' = true) (hds : s.isDef = true)
+    (hc : h.tree u = some c) :
+    ∃ c', remove (q' ++ [s]) c = .ok c' ∧ h'.tree u = some c' := by
+  unfold Heap.removeVia at hs
+  simp only [hv] at hs
+  split at hs
+  · cases hs
+  · cases ht : h.trees[v.root]? with
+    | none => simp [ht] at hs
+    | some t =>
+      simp only [ht] at hs
+      cases hrem : remove (v.path ++ p) t with
+      | error e => simp [hrem] at hs
+      | ok t' =>
+        simp only [hrem] at hs
+        cases hs
+        rw [← hp] at hrem
+        have hg : get u.path t = some c := by
+          simpa [Heap.tree, hr, ht] using hc
+        obtain ⟨c', hc', hg'⟩ := remove_through_prefix u.path q' s t t' c hdu hdq hds hg hrem
+        refine ⟨c', hc', ?_⟩
+        have hlt : v.root < h.trees.length := by
+          rcases List.getElem?_eq_some_iff.mp ht with ⟨hl, _⟩; exact hl
+        simp [Heap.tree, hr, hlt, hg']
+
+/-- A bag stored in another bag (`(bag-set outer inner p)`): afterwards `inner` shows the tree it
+    showed before, now as the part of `outer`'s tree at `p` — so every later write through either
+    is covered by `alias_write_refines`. -/
+theorem store_bag_shares (h h' : Heap) (o i : Nat) (p : Path) (vo vi : View) (t ti : J)
+    (hvo : h.views[o]? = some vo) (hvi : h.views[i]? = some vi)
+    (hto : h.trees[vo.root]? = some t) (hti : h.trees[vi.root]? = some ti) (hcont : ti.isContainer = true)
+    (hdo : definite (vo.path ++ p) = true)
+    (hs : h.storeBag o p i = .ok h') :
+    h'.bagTree i = some ti ∧ (h'.views[i]?).map (·.root) = some vo.root := by
+  unfold Heap.storeBag at hs
+  simp only [hvo, hvi] at hs
+  split at hs
+  · cases hs
+  · rename_i hcond
+    simp only [hto, hti] at hs
+    cases hset : set ti (vo.path ++ p) t with
+    | error e => simp [hset] at hs
+    | ok t' =>
+      simp only [hset, hcont, if_true] at hs
+      cases hs
+      have hempty : vi.path = [] := by
+        by_cases he : vi.path = []
+        · exact he
+        · simp [he] at hcond
+      have hlt : vo.root < h.trees.length := by
+        rcases List.getElem?_eq_some_iff.mp hto with ⟨hl, _⟩; exact hl
+      have hget := get_set_same ti (vo.path ++ p) t t' hdo hset
+      simp [Heap.bagTree, Heap.tree, hvi, hempty, hlt, hget]
 
 end SlipVerif.Json
